@@ -6,64 +6,57 @@ From RB Require Import Base.Val Base.Bytes Model.Bmp Spec.BmpRead Proofs.Bmp.
 Import ListNotations.
 Open Scope N_scope.
 
-(* (1) The Message Length written by the back-patch equals the number of bytes
-   the call appended (common header included), for every message and every
-   earlier buffer content, which is left untouched. *)
+(* (1) Whatever the item and the earlier buffer content: the earlier bytes are
+   untouched and the appended bytes are a non-empty sequence of messages each of
+   whose back-patched Message Length equals its own size (common header
+   included), as long as the item fits the 32-bit field. *)
 Theorem bmp_length_exact :
   forall (c : bytes) (m : bmp_msg), msg_len_ok m ->
     firstn (length c) (bmp_encode c m) = c /\
-    common_length_exact (skipn (length c) (bmp_encode c m)).
+    exists parts, skipn (length c) (bmp_encode c m) = concat parts
+                  /\ parts <> []
+                  /\ Forall common_length_exact parts.
 Proof. exact C19_bmp_length_exact. Qed.
 Check bmp_length_exact :
   forall (c : bytes) (m : bmp_msg), msg_len_ok m ->
     firstn (length c) (bmp_encode c m) = c /\
-    common_length_exact (skipn (length c) (bmp_encode c m)).
+    exists parts, skipn (length c) (bmp_encode c m) = concat parts
+                  /\ parts <> []
+                  /\ Forall common_length_exact parts.
 Print Assumptions bmp_length_exact.
 
-(* (2) The RFC 7854 reader applied to an encoded message returns the intended
-   view, with the length field equal to the message size and nothing left. *)
+(* (2) The RFC 7854 reader applied to what one call appended returns exactly the
+   intended views: one message per item, one Route Monitoring message per BGP
+   frame of a monitored UPDATE (however many frames the BGP encoder produced),
+   each frame intact under the same per-peer header; nothing is left over. *)
 Theorem bmp_readback :
-  forall (m : bmp_msg) (v : bmp_view), wf_msg m -> msg_len_ok m -> view_of m = Some v ->
-    read_bmp (bmp_encode [] m) = Some (N.of_nat (length (bmp_encode [] m)), v, []).
+  forall (m : bmp_msg) (vs : list bmp_view), wf_msg m -> msg_len_ok m -> views m vs ->
+    forall fuel : nat, (length (bmp_encode [] m) <= fuel)%nat ->
+    read_bmp_stream fuel (bmp_encode [] m) = Some vs.
 Proof. exact C19_bmp_readback. Qed.
 Check bmp_readback :
-  forall (m : bmp_msg) (v : bmp_view), wf_msg m -> msg_len_ok m -> view_of m = Some v ->
-    read_bmp (bmp_encode [] m) = Some (N.of_nat (length (bmp_encode [] m)), v, []).
+  forall (m : bmp_msg) (vs : list bmp_view), wf_msg m -> msg_len_ok m -> views m vs ->
+    forall fuel : nat, (length (bmp_encode [] m) <= fuel)%nat ->
+    read_bmp_stream fuel (bmp_encode [] m) = Some vs.
 Print Assumptions bmp_readback.
 
-(* (2') wf_msg demands that the embedded UPDATE is ONE frame.  Without that the
-   statement is false of the code: two frames end up in one Route Monitoring
-   message, which RFC 7854 §4.6 does not allow. *)
-Theorem bmp_readback_refuted :
-  exists (h : pph) (blob : bytes),
-    wf_pph h /\ frames_ok BGP_UPDATE [firstn 23 blob; skipn 23 blob] blob /\
-    read_bmp (bmp_encode [] (RouteMonitoring h blob)) = None.
-Proof. exact C19_bmp_readback_refuted. Qed.
-Check bmp_readback_refuted :
-  exists (h : pph) (blob : bytes),
-    wf_pph h /\ frames_ok BGP_UPDATE [firstn 23 blob; skipn 23 blob] blob /\
-    read_bmp (bmp_encode [] (RouteMonitoring h blob)) = None.
-Print Assumptions bmp_readback_refuted.
-
-(* (3) A whole session through one codec into one buffer reads back message by
-   message. *)
+(* (3) The same for a whole session pushed through one codec into one buffer. *)
 Theorem bmp_stream_readback :
-  forall ms : list bmp_msg,
-    Forall (fun m => wf_msg m /\ msg_len_ok m) ms ->
+  forall (ms : list bmp_msg) (vss : list (list bmp_view)),
+    Forall (fun m => wf_msg m /\ msg_len_ok m) ms -> Forall2 views ms vss ->
     forall fuel : nat, (length (bmp_encode_all [] ms) <= fuel)%nat ->
-    exists vs, Forall2 (fun m v => view_of m = Some v) ms vs /\
-               read_bmp_stream fuel (bmp_encode_all [] ms) = Some vs.
+    read_bmp_stream fuel (bmp_encode_all [] ms) = Some (concat vss).
 Proof. exact C19_bmp_stream_readback. Qed.
 Check bmp_stream_readback :
-  forall ms : list bmp_msg,
-    Forall (fun m => wf_msg m /\ msg_len_ok m) ms ->
+  forall (ms : list bmp_msg) (vss : list (list bmp_view)),
+    Forall (fun m => wf_msg m /\ msg_len_ok m) ms -> Forall2 views ms vss ->
     forall fuel : nat, (length (bmp_encode_all [] ms) <= fuel)%nat ->
-    exists vs, Forall2 (fun m v => view_of m = Some v) ms vs /\
-               read_bmp_stream fuel (bmp_encode_all [] ms) = Some vs.
+    read_bmp_stream fuel (bmp_encode_all [] ms) = Some (concat vss).
 Print Assumptions bmp_stream_readback.
 
 (* (4) V flag <=> IPv6 peer address; with V clear the address field is an IPv4
-   address behind twelve zero octets; the header denotes the monitored address. *)
+   address behind twelve zero octets; the header denotes the monitored address.
+   ([view_pph h] is what the reader returns for the header, by (2).) *)
 Theorem bmp_vflag_iff_v6 :
   forall h : pph, wf_pph h -> flags_no_v h ->
     let pv := view_pph h in
@@ -78,3 +71,22 @@ Check bmp_vflag_iff_v6 :
     /\ peer_addr_consistent pv
     /\ peer_addr_denoted pv = (is_v6 (p_addr h), ip_octets (p_addr h)).
 Print Assumptions bmp_vflag_iff_v6.
+
+(* (4') [flags_no_v] cannot be dropped at the API: PerPeerHeader::new(0x80, .., IPv4 address)
+   yields a V flag on an IPv4 peer.  daemon/src/bmp.rs never passes that bit. *)
+Theorem bmp_vflag_caller_flags_refuted :
+  exists h : pph, wf_pph h /\ is_v6 (p_addr h) = false /\ v_flag (view_pph h) = true.
+Proof. exact C19_bmp_vflag_caller_flags_refuted. Qed.
+Check bmp_vflag_caller_flags_refuted :
+  exists h : pph, wf_pph h /\ is_v6 (p_addr h) = false /\ v_flag (view_pph h) = true.
+Print Assumptions bmp_vflag_caller_flags_refuted.
+
+(* (2') [wf_tlv] cannot be dropped at the API: `bin.len() as u16` announces a 65536-byte
+   value with length 0.  The daemon's TLVs are a version string and the host name. *)
+Theorem bmp_tlv_truncation_refuted :
+  exists tlvs : list (N * bytes), read_bmp_stream 1 (bmp_encode [] (Initiation tlvs)) = None.
+Proof. exact C19_bmp_tlv_truncation_refuted. Qed.
+Check bmp_tlv_truncation_refuted :
+  exists tlvs : list (N * bytes), read_bmp_stream 1 (bmp_encode [] (Initiation tlvs)) = None.
+Print Assumptions bmp_tlv_truncation_refuted.
+
